@@ -321,7 +321,7 @@ def judge_builders(ctx, rng, j):
     fields = _auth.sigfields(rng, must=(1, 4))
     # the adapter builders use their sigflags argument as the message
     # selector on both sides: lock and witness take the same value
-    f = rng.choice((0, 0, 8, 1))
+    f = rng.choice((0, 0, 8, 1, 0x10, 0xa0, 0x80))
     allowed = f
     a_hex, f_hex = f'{allowed:02x}', f'{f:02x}'
     base = {'kind': 'builders', 'seed': seed, 't': tw, 'fields': fields,
